@@ -9,6 +9,7 @@ import AcryoVerif.Model.Split
 import AcryoVerif.Model.Fsc
 import AcryoVerif.Model.Bin
 import AcryoVerif.Model.Table
+import AcryoVerif.Model.Frame
 
 /-! Dispatch of hand-written model operations for the line-protocol driver. -/
 namespace Model
@@ -205,6 +206,19 @@ def opTable (a : Array Rat) : String :=
   let n := (i a 0).toNat
   " ; ".intercalate (runTable (tabOfTags (List.range n)) (a.toList.drop 1) [])
 
+/-- `frame code...` : feature-name codes (`< 6` = a coordinate name, otherwise `f<code>`) → column
+names written by `to_dataframe`, then the feature names read back by `from_dataframe`. -/
+def opFrame (a : Array Rat) : String :=
+  let nameOf (c : Nat) : String := if c < 6 then csvColumns.getD c "?" else s!"f{c}"
+  let feats : Frame Nat := (a.toList.map fun q => (nameOf q.floor.toNat, [q.floor.toNat]))
+  let coords : List (List Nat) := [[0], [1], [2], [3], [4], [5]]
+  match toFrame coords feats with
+  | .error e => "err:" ++ toString e
+  | .ok df =>
+    match fromFrame df with
+    | .error e => "err:" ++ toString e
+    | .ok (_, fs) => ",".intercalate (df.map (·.1)) ++ " | " ++ ",".intercalate (fs.map (·.1))
+
 def dispatch (name : String) (a : Array Rat) : Option String :=
   match name with
   | "prepAffine" => some (flat (opPrepAffine a))
@@ -232,6 +246,7 @@ def dispatch (name : String) (a : Array Rat) : Option String :=
   | "fscLabels" => some (opFscLabels a)
   | "bin" => some (opBin a)
   | "table" => some (opTable a)
+  | "frame" => some (opFrame a)
   | _ => none
 
 end Model
